@@ -141,7 +141,11 @@ def substitute(t, mapping: dict) -> tuple:
         return t
     if t in mapping:
         return mapping[t]
-    return tuple(substitute(x, mapping) if isinstance(x, tuple) else x for x in t)
+    r = tuple(substitute(x, mapping) if isinstance(x, tuple) else x for x in t)
+    # getattr(x, "<literal>") that became literal through the substitution is the attribute itself
+    if r and r[0] == "call" and r[1] == ("builtin", "getattr") and len(r[2]) == 2 and not r[3] and r[2][1][0] == "const" and isinstance(r[2][1][1], str):
+        return ("attr", r[2][0], r[2][1][1])
+    return r
 
 
 def concat_parts(t) -> list | None:
@@ -388,6 +392,13 @@ class Lowering:
             return ("list", tuple(elts))
         if fname == "functools.partial" and args and not any(op(a) == "star" for a in args):
             return ("bound", args[0], tuple(args[1:]), kws)
+        if op(func) == "builtin" and fname in ("filter", "map") and len(args) == 2 and not kws and not any(op(a) == "star" for a in args):
+            # filter(p, xs) == (x for x in xs if p(x));  map(f, xs) == (f(x) for x in xs)
+            v = ("bv", self.fresh(), "_" + fname)
+            if fname == "filter":
+                cond = v if is_const(args[0], None) else ("call", args[0], (v,), ())
+                return ("comp", "gen", v, ((v, args[1], (cond,)),))
+            return ("comp", "gen", ("call", args[0], (v,), ()), ((v, args[1], ()),))
         if fname == "typing.cast" and len(args) == 2:
             return args[1]
         if fname in ("list", "dict", "set") and not args and not kws:
@@ -580,6 +591,12 @@ class Lowering:
             it = self.expr(g.iter, env2)
             tgt = self.bind_target(g.target, env2, None)
             ifs = tuple(self.expr(c, env2) for c in g.ifs)
+            # a generator whose source is itself an identity comprehension is that comprehension's
+            # source with its filters:  for x in (y for y in ys if p(y)) if q(x)  ==  for x in ys if p(x) if q(x)
+            while op(it) == "comp" and it[1] in ("gen", "list") and len(it[3]) == 1 and it[2] == it[3][0][0] and op(it[2]) == "bv":
+                itgt, isrc, iifs = it[3][0]
+                ifs = tuple(substitute(c, {itgt: tgt}) for c in iifs) + ifs
+                it = isrc
             gens.append((tgt, it, ifs))
         return ("comp", kind, elt_fn(env2), tuple(gens))
 
